@@ -60,7 +60,8 @@ func (c *SilentCase) Judge(rs []Res, env *Env) Outcome {
 	for _, l := range base.Log {
 		baseDiag[parseLog(l).Msg] = true
 	}
-	for _, l := range env.Diags(&r) {
+	// a refusal is an error-level line or an info-level line that reports an error in words; warnings are not
+	for _, l := range env.RejectDiags(&r) {
 		if !baseDiag[parseLog(l).Msg] {
 			o.Status, o.Note = Rejected, "diagnosed"
 			return o
